@@ -71,3 +71,292 @@ def gen_tab(rng, zero_ok=True):
 
 def tab_str(tab):
     return "tab " + str(len(tab)) + "".join(f" {x} {v}" for x, v in tab)
+
+
+# ---------------------------------------------------------------------------
+# arrival models (trees of tuples) — see arr_str for the protocol rendering
+
+def gen_dmin(rng, maxlen=8, allow_zero=True):
+    """non-decreasing delta-min vector with last >= 1: bursts (leading zeros), plateaus
+    inside and at the END, large jumps after quiet periods (non-concave curves)"""
+    n = wchoice(rng, [(2, 1), (3, 2), (4, 3), (3, 4), (2, 6), (1, maxlen)])
+    d = []
+    cur = 0
+    if allow_zero and rng.random() < 0.25:
+        cur = 0
+    else:
+        cur = rng.randint(1, 12)
+    for i in range(n):
+        d.append(cur)
+        r = rng.random()
+        if r < 0.2:
+            inc = 0                      # plateau
+        elif r < 0.75:
+            inc = rng.randint(1, 8)
+        else:
+            inc = rng.randint(8, 40)     # quiet period
+        cur += inc
+    if d[-1] == 0:
+        d[-1] = rng.randint(1, 10)
+    if rng.random() < 0.12 and len(d) >= 2:
+        d[-2] = d[-1]                    # plateau at the end (finding F3)
+    return d
+
+
+def gen_prefix(rng):
+    h = rng.randint(1, 40)
+    k = rng.randint(1, min(5, h))
+    deltas = sorted(rng.sample(range(2, h + 1), k - 1)) if h >= k and k > 1 and h - 1 >= k - 1 else []
+    deltas = [1] + deltas
+    steps = []
+    n = 0
+    for dl in deltas:
+        n += rng.randint(1, 3)
+        steps.append((dl, n))
+    return ("pre", h, steps)
+
+
+def gen_arr(rng, depth=2, derived=True, allow_prefix=True, allow_x=True):
+    leaf = depth <= 0 or rng.random() < 0.45
+    if leaf:
+        k = wchoice(rng, [(1, "never"), (4, "per"), (6, "spo"), (5, "cur"), (3 if allow_x else 0, "xcur"),
+                          (2 if allow_prefix else 0, "pre"), (2 if derived else 0, "derived")])
+        if k == "never":
+            return ("never",)
+        if k == "per":
+            return ("per", small(rng, 1, 60))
+        if k == "spo":
+            T = small(rng, 1, 60)
+            J = wchoice(rng, [(3, 0), (3, rng.randint(0, T)), (2, rng.randint(T, 3 * T + 5)), (1, rng.randint(0, 200))])
+            return ("spo", T, J)
+        if k == "cur":
+            return ("cur", gen_dmin(rng))
+        if k == "xcur":
+            return ("xcur", gen_dmin(rng))
+        if k == "pre":
+            return gen_prefix(rng)
+        return gen_derived_curve(rng, depth)
+    k = wchoice(rng, [(3, "prop"), (3, "agg"), (1, "sli"), (2, "sum"), (2, "wj"), (1, "box")])
+    if k == "prop":
+        return ("prop", wchoice(rng, [(1, 0), (3, rng.randint(0, 10)), (1, rng.randint(10, 80))]),
+                gen_arr(rng, depth - 1, derived, allow_prefix, allow_x))
+    if k in ("agg", "sli"):
+        n = wchoice(rng, [(1, 0), (2, 1), (4, 2), (2, 3)])
+        return (k, [gen_arr(rng, depth - 1, derived, allow_prefix, allow_x) for _ in range(n)])
+    if k == "sum":
+        return ("sum", gen_arr(rng, depth - 1, derived, allow_prefix, allow_x), gen_arr(rng, depth - 1, derived, allow_prefix, allow_x))
+    if k == "wj":
+        return ("wj", rng.randint(0, 30), gen_arr(rng, depth - 1, derived, allow_prefix, allow_x))
+    return ("box", gen_arr(rng, depth - 1, derived, allow_prefix, allow_x))
+
+
+def gen_trace(rng, maxlen=14):
+    n = rng.randint(2, maxlen)
+    t = rng.randint(0, 5)
+    tr = []
+    for _ in range(n):
+        tr.append(t)
+        t += wchoice(rng, [(2, 0), (5, rng.randint(1, 8)), (1, rng.randint(8, 50))])
+    return tr
+
+
+def gen_derived_curve(rng, depth=1):
+    k = wchoice(rng, [(3, "c_ab"), (3, "c_abu"), (1, "c_per"), (0.3, "c_spo"), (2, "c_pre"), (3, "c_tr"),
+                      (2, "c_ext"), (2, "c_exs"), (1, "c_it"), (1, "c_exb")])
+    if k == "c_ab":
+        return ("c_ab", rng.randint(0, 12), gen_arr(rng, depth - 1, derived=False))
+    if k == "c_abu":
+        return ("c_abu", rng.randint(0, 60), gen_arr(rng, depth - 1, derived=False))
+    if k == "c_per":
+        return ("c_per", small(rng, 1, 40))
+    if k == "c_spo":
+        T = small(rng, 1, 30)
+        return ("c_spo", T, rng.randint(0, 3 * T))
+    if k == "c_pre":
+        return ("c_pre", gen_prefix(rng), rng.random() < 0.5)
+    if k == "c_tr":
+        return ("c_tr", rng.randint(1, 6), gen_trace(rng))
+    if k == "c_ext":
+        return ("c_ext", rng.randint(0, 120), ("cur", gen_dmin(rng)))
+    if k == "c_exs":
+        return ("c_exs", rng.randint(0, 14), ("cur", gen_dmin(rng)))
+    if k == "c_exb":
+        d = gen_dmin(rng)
+        return ("c_exb", rng.randint(1, 80), len(d) + 2 if rng.random() < 0.7 else rng.randint(0, 8), ("cur", d))
+    return ("c_it", [rng.randint(0, 30) for _ in range(rng.randint(1, 6))])
+
+
+def lst(v):
+    return str(len(v)) + "".join(" " + str(x) for x in v)
+
+
+def arr_str(a):
+    k = a[0]
+    if k == "never":
+        return "never"
+    if k == "per":
+        return f"per {a[1]}"
+    if k == "spo":
+        return f"spo {a[1]} {a[2]}"
+    if k in ("cur", "xcur", "c_it"):
+        return f"{k} {lst(a[1])}"
+    if k == "pre":
+        return f"pre {a[1]} {len(a[2])}" + "".join(f" {d} {n}" for d, n in a[2])
+    if k == "prop":
+        return f"prop {a[1]} {arr_str(a[2])}"
+    if k in ("agg", "sli"):
+        return f"{k} {len(a[1])}" + "".join(" " + arr_str(x) for x in a[1])
+    if k == "sum":
+        return f"sum {arr_str(a[1])} {arr_str(a[2])}"
+    if k == "wj":
+        return f"wj {a[1]} {arr_str(a[2])}"
+    if k == "box":
+        return f"box {arr_str(a[1])}"
+    if k in ("c_ab", "c_abu"):
+        return f"{k} {a[1]} {arr_str(a[2])}"
+    if k == "c_per":
+        return f"c_per {a[1]}"
+    if k == "c_spo":
+        return f"c_spo {a[1]} {a[2]}"
+    if k == "c_pre":
+        return f"c_pre {arr_str(a[1])}" + (" byval" if a[2] else "")
+    if k == "c_tr":
+        return f"c_tr {a[1]} {lst(a[2])}"
+    if k in ("c_ext", "c_exs"):
+        return f"{k} {a[1]} {arr_str(a[2])}"
+    if k == "c_exb":
+        return f"c_exb {a[1]} {a[2]} {arr_str(a[3])}"
+    if k == "p_abu":
+        return f"p_abu {a[1]} {arr_str(a[2])}"
+    if k == "xc":
+        return f"xc {arr_str(a[1])}"
+    raise ValueError(a)
+
+
+def arr_constructors(a, acc=None):
+    acc = acc if acc is not None else {}
+    acc[a[0]] = acc.get(a[0], 0) + 1
+    for x in a[1:]:
+        if isinstance(x, tuple) and x and isinstance(x[0], str):
+            arr_constructors(x, acc)
+        elif isinstance(x, list):
+            for y in x:
+                if isinstance(y, tuple) and y and isinstance(y[0], str):
+                    arr_constructors(y, acc)
+    return acc
+
+
+# ---------------------------------------------------------------------------
+# cost models
+
+def gen_cost_vec(rng, wf=True):
+    """cumulative cost vector; wf: non-decreasing and sub-additive (built from a
+    per-job cost sequence by taking maxima over runs)"""
+    n = rng.randint(1, 6)
+    jobs = [rng.randint(0 if rng.random() < 0.2 else 1, 9) for _ in range(n + 3)]
+    w = []
+    for k in range(1, n + 1):
+        w.append(max(sum(jobs[i:i + k]) for i in range(0, len(jobs) - k + 1)))
+    if not wf:
+        w = [rng.randint(0, 20) for _ in range(n)]
+    return w
+
+
+def gen_cost(rng, scalar_only=False, positive=False):
+    k = "sc" if scalar_only else wchoice(rng, [(5, "sc"), (3, "mf"), (3, "cc"), (2, "xcc"), (1, "cc_tr"), (1, "cbox")])
+    lo = 1 if positive else 0
+    if k == "sc":
+        return ("sc", rng.randint(lo if rng.random() < 0.9 else 1, 12))
+    if k == "mf":
+        return ("mf", [rng.randint(lo, 9) for _ in range(rng.randint(1 if positive else 0, 5))])
+    if k == "cc":
+        return ("cc", gen_cost_vec(rng))
+    if k == "xcc":
+        return ("xcc", ("cc", gen_cost_vec(rng)))
+    if k == "cc_tr":
+        return ("cc_tr", rng.randint(1, 5), [rng.randint(lo, 9) for _ in range(rng.randint(1, 12))])
+    return ("cbox", gen_cost(rng, scalar_only, positive))
+
+
+def cost_str(c):
+    k = c[0]
+    if k == "sc":
+        return f"sc {c[1]}"
+    if k in ("mf", "cc", "cc_it"):
+        return f"{k} {lst(c[1])}"
+    if k == "xcc":
+        return f"xcc {cost_str(c[1])}"
+    if k == "cc_tr":
+        return f"cc_tr {c[1]} {lst(c[2])}"
+    if k == "cc_ext":
+        return f"cc_ext {c[1]} {cost_str(c[2])}"
+    if k == "cbox":
+        return f"cbox {cost_str(c[1])}"
+    raise ValueError(c)
+
+
+# ---------------------------------------------------------------------------
+# request bounds
+
+def gen_rb(rng, depth=1, scalar_only=False, positive=False, arr_depth=1, allow_prefix=True):
+    if depth <= 0 or rng.random() < 0.5:
+        return ("rbf", gen_arr(rng, arr_depth, derived=(rng.random() < 0.2), allow_prefix=allow_prefix),
+                gen_cost(rng, scalar_only, positive))
+    k = wchoice(rng, [(4, "ragg"), (2, "rsli"), (1, "rbox")])
+    if k == "rbox":
+        return ("rbox", gen_rb(rng, depth - 1, scalar_only, positive, arr_depth, allow_prefix))
+    n = wchoice(rng, [(1, 0), (2, 1), (4, 2), (2, 3)])
+    return (k, [gen_rb(rng, depth - 1, scalar_only, positive, arr_depth, allow_prefix) for _ in range(n)])
+
+
+def rb_str(r):
+    k = r[0]
+    if k == "rbf":
+        return f"rbf {arr_str(r[1])} {cost_str(r[2])}"
+    if k in ("ragg", "rsli"):
+        return f"{k} {len(r[1])}" + "".join(" " + rb_str(x) for x in r[1])
+    if k == "rbox":
+        return f"rbox {rb_str(r[1])}"
+    raise ValueError(r)
+
+
+# ---------------------------------------------------------------------------
+# task systems for the analyses
+
+def gen_task_arr(rng, allow_prefix=True):
+    k = wchoice(rng, [(10, "spo"), (3, "per"), (4, "cur"), (1.5, "xcur"), (2.5, "nest"), (0.6 if allow_prefix else 0, "pre"), (0.4, "never")])
+    if k == "spo":
+        T = rng.randint(2, 40)
+        J = wchoice(rng, [(4, 0), (3, rng.randint(0, T)), (1, rng.randint(T, 2 * T + 5))])
+        return ("spo", T, J)
+    if k == "per":
+        return ("per", rng.randint(2, 40))
+    if k == "cur":
+        return ("cur", gen_dmin(rng, maxlen=5))
+    if k == "xcur":
+        return ("xcur", gen_dmin(rng, maxlen=4))
+    if k == "pre":
+        return gen_prefix(rng)
+    if k == "never":
+        return ("never",)
+    return gen_arr(rng, depth=1, derived=False, allow_prefix=False)
+
+
+def gen_task_rb(rng, scalar=True, allow_prefix=True):
+    a = gen_task_arr(rng, allow_prefix)
+    if scalar or rng.random() < 0.8:
+        c = ("sc", wchoice(rng, [(6, rng.randint(1, 4)), (3, rng.randint(1, 10)), (0.3, 0)]))
+    else:
+        c = gen_cost(rng, positive=True)
+    return ("rbf", a, c)
+
+
+def gen_limit(rng):
+    return wchoice(rng, [(1, rng.randint(0, 3)), (3, rng.randint(3, 40)), (5, rng.randint(40, 400)), (2, rng.randint(400, 3000))])
+
+
+def gen_rb_maybe_agg(rng, scalar=True, allow_prefix=True):
+    if rng.random() < 0.75:
+        return gen_task_rb(rng, scalar, allow_prefix)
+    k = wchoice(rng, [(3, "ragg"), (1, "rsli")])
+    return (k, [gen_task_rb(rng, scalar, allow_prefix) for _ in range(rng.randint(0, 3))])
